@@ -241,28 +241,16 @@ class Circuit:
         if circuit.n_modes - n_heralds > n_available:
             raise ModeRangeError("Circuit to add is outside of mode range")
 
-        # Include any existing internal modes into the circuit to be added
-        for i in sorted(self.__internal_modes):
-            # Need to account for shifts when adding new heralds
-            target_mode = i - mode
-            for m in circuit.heralds["input"]:
-                if target_mode > m:
-                    target_mode += 1
-            if 0 <= target_mode < circuit.n_modes:
-                spec = circuit._add_empty_mode(spec, target_mode)
-        # Then add new modes for heralds from circuit and also add swaps to
-        # enforce that the input and output herald are on the same mode
-        provisional_swaps = {}
-        for m in sorted(circuit.heralds["input"]):
-            self.__circuit_spec = self._add_empty_mode(
-                self.__circuit_spec, mode + m
+        # Current limitation is that heralding should be on the same mode
+        # when adding, so use a mode swap to compensate for this. This is
+        # found before any other modes are included in the circuit.
+        provisional_swaps = dict(
+            zip(
+                circuit.heralds["output"],
+                circuit.heralds["input"],
+                strict=True,
             )
-            self.__internal_modes.append(mode + m)
-            # Current limitation is that heralding should be on the same mode
-            # when adding, so use a mode swap to compensate for this.
-            herald_loc = list(circuit.heralds["input"].keys()).index(m)
-            out_herald = list(circuit.heralds["output"].keys())[herald_loc]
-            provisional_swaps[out_herald] = m
+        )
         # Convert provisional swaps into full list and add to circuit
         current_mode = 0
         swaps = {}
@@ -281,6 +269,24 @@ class Circuit:
         # Skip for cases where swaps do not alter mode structure
         if list(swaps.keys()) != list(swaps.values()):
             spec.append(ModeSwaps(swaps))
+        circuit.__out_heralds = copy(circuit.__in_heralds)
+        circuit.__external_out_heralds = copy(circuit.__external_in_heralds)
+
+        # Include any existing internal modes into the circuit to be added
+        for i in sorted(self.__internal_modes):
+            # Need to account for shifts when adding new heralds
+            target_mode = i - mode
+            for m in sorted(circuit.heralds["input"]):
+                if target_mode > m:
+                    target_mode += 1
+            if 0 <= target_mode < circuit.n_modes:
+                spec = circuit._add_empty_mode(spec, target_mode)
+        # Then add new modes for heralds from circuit
+        for m in sorted(circuit.heralds["input"]):
+            self.__circuit_spec = self._add_empty_mode(
+                self.__circuit_spec, mode + m
+            )
+            self.__internal_modes.append(mode + m)
         # Update heralds to enforce input and output are on the same mode
         new_heralds = {
             "input": circuit.heralds["input"],
